@@ -25,23 +25,58 @@ Theorem C13_split_no_inner_separator :
 Proof. exact split_no_inner. Qed.
 Print Assumptions C13_split_no_inner_separator.
 
-(* Annotation round trip — partial.
-   Full statement (DESIGN §5 C13): write_clear (read_set i n) = clear_empty_annotations n for every
-   resource n that carries none of the reader's keys.  Proved here: the core on the annotation mapping
-   itself (set legacy index, set index, then clear index / legacy index / seqindent: the mapping comes
-   back, entries and order unchanged).  Missing: the wrapping in metadata (creation of metadata /
-   annotations when absent and their removal when left empty), which is covered by the correspondence
-   cases A_read / A_write only. *)
-Theorem C13_annotations_roundtrip_partial :
-  forall (nonstr : string -> bool) akvs v,
-    no_reader_keys akvs ->
-    (do m1 <- set_field nonstr legacy_index_key (Some (ann_value v)) false (Map akvs);
-     do m2 <- set_field nonstr index_key (Some (ann_value v)) false m1;
-     do m3 <- clear_field index_key m2;
-     do m4 <- clear_field legacy_index_key m3;
-     clear_field seqindent_key m4) = Ok (Map akvs).
-Proof. exact annotation_map_roundtrip. Qed.
-Print Assumptions C13_annotations_roundtrip_partial.
+(* Annotation round trip, node level.  [res_wf ks n]: n is a mapping; `metadata`, if present, is a
+   mapping and the only field of that name; `annotations`, if present, is a mapping, the only field of
+   that name, and carries none of the keys [ks].
+   Reader (ByteReader.decode: legacy index, index — each SetAnnotation first drops empty annotation maps,
+   then creates metadata / annotations when absent) followed by writer (ByteWriter.Write: clear index,
+   legacy index, seqindent; then drop `annotations` if left empty and `metadata` if left empty) is
+   exactly ClearEmptyAnnotations of the original resource. *)
+Theorem C13_annotations_roundtrip :
+  forall (nonstr : string -> bool) (i : N) (n : node),
+    res_wf reader_keys n -> rt_node nonstr i n = clear_empty_annotations n.
+Proof. exact rt_node_is_cea. Qed.
+Print Assumptions C13_annotations_roundtrip.
+
+(* … the same for the package reader / writer, which also set and clear the two path annotations
+   (for every path string) *)
+Theorem C13_annotations_roundtrip_package :
+  forall (nonstr : string -> bool) (i : N) (path : string) (n : node),
+    res_wf pkg_reader_keys n -> pkg_rt_node nonstr i path n = clear_empty_annotations n.
+Proof. exact pkg_rt_node_is_cea. Qed.
+Print Assumptions C13_annotations_roundtrip_package.
+
+(* on well-formed resources ClearEmptyAnnotations succeeds, yields a well-formed resource and is idempotent *)
+Theorem C13_clear_empty_total :
+  forall ks n, res_wf ks n -> exists n1, clear_empty_annotations n = Ok n1.
+Proof. exact cea_total. Qed.
+Print Assumptions C13_clear_empty_total.
+
+Theorem C13_clear_empty_idempotent :
+  forall ks n n1, res_wf ks n -> clear_empty_annotations n = Ok n1 ->
+    res_wf ks n1 /\ clear_empty_annotations n1 = Ok n1.
+Proof. exact cea_idempotent. Qed.
+Print Assumptions C13_clear_empty_idempotent.
+
+(* second round trip = first, at node level (the index annotation of the second trip may differ) *)
+Theorem C13_idempotent_model :
+  forall (nonstr : string -> bool) (i j : N) (n n1 : node),
+    res_wf reader_keys n -> rt_node nonstr i n = Ok n1 -> rt_node nonstr j n1 = Ok n1.
+Proof. exact rt_node_idempotent. Qed.
+Print Assumptions C13_idempotent_model.
+
+Theorem C13_idempotent_model_package :
+  forall (nonstr : string -> bool) (i j : N) (p q : string) (n n1 : node),
+    res_wf pkg_reader_keys n -> pkg_rt_node nonstr i p n = Ok n1 -> pkg_rt_node nonstr j q n1 = Ok n1.
+Proof. exact pkg_rt_node_idempotent. Qed.
+Print Assumptions C13_idempotent_model_package.
+
+(* a resource without metadata comes back unchanged *)
+Theorem C13_roundtrip_identity_no_metadata :
+  forall (nonstr : string -> bool) (i : N) kvs,
+    find_field "metadata" kvs = None -> rt_node nonstr i (Map kvs) = Ok (Map kvs).
+Proof. exact rt_node_identity_no_metadata. Qed.
+Print Assumptions C13_roundtrip_identity_no_metadata.
 
 (* Package writes are confined, for ALL path annotation strings (absolute, dot-dot, a/../../b, empty,
    trailing slash, …): an accepted annotation yields the package path followed by good names (non-empty,
